@@ -41,19 +41,28 @@ pub trait MX: MemBuilder + Default + 'static {
     fn cap_call<Tr: ?Sized + Trait>(_v: &mut AnyVec<Tr, Self>, _c: CapCall, _n: usize) { unreachable!("not resizable") }
     fn cap_call_typed<T: 'static>(_v: &mut AnyVecTyped<'_, T, Self>, _c: CapCall, _n: usize) { unreachable!("not resizable") }
     /// C17: decompose into raw parts and rebuild (variants: see exec_views)
-    fn raw_roundtrip<Tr: ?Sized + Trait>(_v: AnyVec<Tr, Self>, _variant: u8, _want: &crate::exec_views::PartsWant, _fails: &mut Vec<crate::types::Fail>) -> AnyVec<Tr, Self> { unreachable!("no raw parts") }
+    fn raw_roundtrip<T: 'static, Tr: ?Sized + Trait>(_v: AnyVec<Tr, Self>, _variant: u8, _want: &crate::exec_views::PartsWant, _fails: &mut Vec<crate::types::Fail>) -> AnyVec<Tr, Self> { unreachable!("no raw parts") }
 }
 
 macro_rules! rawparts_impl {
     () => {
         const RAWPARTS: bool = true;
-        fn raw_roundtrip<Tr: ?Sized + Trait>(v: AnyVec<Tr, Self>, variant: u8, want: &crate::exec_views::PartsWant, fails: &mut Vec<crate::types::Fail>) -> AnyVec<Tr, Self> {
+        fn raw_roundtrip<T: 'static, Tr: ?Sized + Trait>(v: AnyVec<Tr, Self>, variant: u8, want: &crate::exec_views::PartsWant, fails: &mut Vec<crate::types::Fail>) -> AnyVec<Tr, Self> {
             use crate::exec_views::PartsSeen;
             let see = |p: &any_vec::RawParts<Self>| PartsSeen { len: p.len, cap: p.capacity, layout: p.element_layout, tid: p.element_typeid, has_drop: p.element_drop.is_some() };
             let p = v.into_raw_parts();
             see(&p).check(want, "into_raw_parts", fails);
             match variant {
                 0 => unsafe { AnyVec::from_raw_parts(p) },
+                // `Clone::clone_from` into the parts of ANOTHER vector: same element type, constraint set without Cloneable
+                4 => {
+                    let dummy = AnyVec::<dyn any_vec::traits::None, Self>::new_in::<T>(Self::make());
+                    let mut o = dummy.into_raw_parts();
+                    o.clone_from(&p);
+                    let n0 = fails.len();
+                    see(&o).check(want, "RawParts::clone_from", fails);
+                    if fails.len() == n0 { unsafe { AnyVec::from_raw_parts(o) } } else { unsafe { AnyVec::from_raw_parts(p) } }
+                }
                 1 => { let v2: AnyVec<Tr, Self> = unsafe { AnyVec::from_raw_parts(p) }; let p2 = v2.into_raw_parts(); see(&p2).check(want, "second into_raw_parts", fails); unsafe { AnyVec::from_raw_parts(p2) } }
                 _ => {
                     let c = p.clone();
